@@ -245,6 +245,9 @@ func (rc replayCase) tcase() (*tcase, error) {
 	sort.Strings(names)
 	for _, n := range names {
 		var rs *resSpec
+		if rc.Table[n] == resStart.class {
+			rs = &resStart
+		}
 		for i := range resThorough {
 			if resThorough[i].class == rc.Table[n] {
 				rs = &resThorough[i]
@@ -622,7 +625,7 @@ func (rep *reporter) enumeratePolicy(p polSpec, real dispatcher.EgressPolicy, do
 				break
 			}
 		}
-		midURL := strings.Replace(mid.url, "/start", "/mid", 1)
+		midURL := "https://" + mid.host + "/mid"
 		for depth := 1; depth <= 2; depth++ {
 			if depth == 2 && (!p.Redirects || sti > 0) {
 				continue
@@ -788,8 +791,11 @@ func selfTest(r *runner.Run) {
 }
 
 func initResolverAnswers(r *runner.Run) {
+	all := []*resSpec{&resStart}
 	for i := range resThorough {
-		rs := &resThorough[i]
+		all = append(all, &resThorough[i])
+	}
+	for _, rs := range all {
 		rt := &resRT{}
 		for _, s := range rs.answer {
 			zone := ""
@@ -813,7 +819,10 @@ func initResolverAnswers(r *runner.Run) {
 	resPublic = &resThorough[0]
 	for i := range starts {
 		for j := range starts[i].table {
-			starts[i].table[j].res = resPublic
+			starts[i].table[j].res = &resStart
+			if starts[i].table[j].name == "name.example" {
+				starts[i].table[j].res = resPublic
+			}
 		}
 	}
 }
@@ -1133,7 +1142,7 @@ func TestCheck(t *testing.T) {
 		"(kind, scheme, host class, resolver class, policy flags, allow class, deny class, observed verdict)")
 	r.Assume("the address set of a host is the resolver's answer at the time of the check; a change of the answer between check and connect (TOCTOU rebinding) is outside the statement and not modelled; one name has one answer within a case")
 	r.Assume("resolver failure or empty answer: the statement constrains only addresses that exist, so the reference uses an empty address set (scheme, host rules and an unmatched allowlist still forbid); the kind of error returned in that situation is not asserted")
-	r.Assume("an IPv4-mapped IPv6 address is the IPv4 address it embeds for IP/CIDR rules as well as for dns_rebind_protection (the statement says so explicitly only for the latter)")
+	r.Assume("an IPv4-mapped IPv6 address is the IPv4 address it embeds for IPv4 IP/CIDR rules as well as for dns_rebind_protection (the statement says so explicitly only for the latter); a rule written in IPv4-mapped notation is only required to match IPv4-mapped addresses (the same IPv6 address), not the native IPv4 spelling")
 	r.Assume("host canonicalisation: ASCII case-insensitive, one trailing dot ignored, IP literal = dotted quad or RFC 4291 text; decimal/hex/octal/short IPv4 notations are names and resolve only through the table (what the OS resolver would make of them is not modelled)")
 	r.Assume("allowed probes are asserted only for plainly spelled URLs (lower-case http/https, no userinfo, canonical host) with only public addresses; stricter behaviour on other spellings or on unlisted special-purpose ranges (documentation, CGNAT, broadcast) is not judged")
 	r.Assume("error kind for a denied redirect hop is not asserted (the statement only requires that the hop is not contacted); URLs the Go URL parser refuses or that carry no authority are only required to send nothing and fail")
